@@ -169,6 +169,8 @@ func verifHarness_C05_structured(k1 int, n1 int, k2 int, n2 int, noise int, mode
 	r1 := &Reader{ByteReader: c1}
 	r2 := &Reader{ByteReader: c2}
 	verifAssert(r1.Initialize() == nil && r2.Initialize() == nil, "C05/B/init")
+	var kept []Frame
+	var keptWire [][]byte
 	for i := 0; i < len(kinds); i++ {
 		f1, e1 := r1.Read()
 		f2, e2 := r2.Read()
@@ -181,6 +183,8 @@ func verifHarness_C05_structured(k1 int, n1 int, k2 int, n2 int, noise int, mode
 		verifAssert(e2 == nil && f2 != nil, "C05/B/valid-frame-returned-any-split")
 		if e1 == nil && f1 != nil {
 			verifAssert(verifEqBytes(verifWireOf(f1), wires[i]), "C05/B/frame-equals-its-bytes")
+			kept = append(kept, f1)
+			keptWire = append(keptWire, wires[i])
 		}
 		if e2 == nil && f2 != nil {
 			verifAssert(verifEqBytes(verifWireOf(f2), wires[i]), "C05/B/frame-equals-its-bytes-any-split")
@@ -189,6 +193,10 @@ func verifHarness_C05_structured(k1 int, n1 int, k2 int, n2 int, noise int, mode
 	_, e1 := r1.Read()
 	_, e2 := r2.Read()
 	verifAssert(e1 == io.EOF && e2 == io.EOF, "C05/B/then-end-of-stream")
+	// a returned frame is the caller's: later calls do not change the frames handed out before
+	for i := range kept {
+		verifAssert(verifEqBytes(verifWireOf(kept[i]), keptWire[i]), "C05/B/frame-still-equals-its-bytes-after-later-reads")
+	}
 	verifReach("C05/B")
 }
 
